@@ -12,6 +12,7 @@ import math
 import struct
 from fractions import Fraction as F
 
+import re
 import z3
 
 from .exec import Amount, b_and, b_or, b_not
@@ -98,6 +99,15 @@ class Theory:
             return self.const(F(0))
         if last in ("ONE",) and "Decimal" in path:
             return self.const(F(1))
+        if self.backend == "f64" and re.search(r"\bf64\b", path):
+            import sys
+            tab = {"EPSILON": sys.float_info.epsilon, "MAX": sys.float_info.max, "MIN": -sys.float_info.max,
+                   "MIN_POSITIVE": sys.float_info.min, "INFINITY": float("inf"), "NEG_INFINITY": float("-inf"), "NAN": float("nan")}
+            if last in tab:
+                try:
+                    return self.const(tab[last])
+                except (OverflowError, ValueError):
+                    raise Unsupported("non-finite f64 constant %s in a real-valued theory" % path)
         return None
 
     def const_float_literal(self, text):
